@@ -292,6 +292,9 @@ var kinds = []kind{
 	{id: "ref_local_field", types: []ty{tI, tIn}, ref: true, judged: true},
 	{id: "ref_local_elem", types: []ty{tI}, ref: true, judged: true},
 	{id: "ref_param_second", types: []ty{tI, tP}, ref: true, judged: true},
+	// a `&H` parameter whose field R is a `&'T`: what lies behind R is reached through an immutable
+	// reference and is immutable on that path (the twin's parameter is `&'H`)
+	{id: "ref_param_holder", types: []ty{tP, tAP}, ref: true, judged: true},
 	{id: "const_global", types: []ty{tI, tP}, judged: true, global: true},
 }
 
@@ -466,10 +469,13 @@ func (g *group) render(sel []int, control, prints bool) (string, [][2]int) {
 	if kd.copyKind() && control {
 		target = "j"
 	}
+	if kd.id == "ref_param_holder" {
+		target = "x.R"
+	}
 	var inner []line
 	var pr []string
 	if prints && !kd.global {
-		for _, l := range t.leaves("x") {
+		for _, l := range t.leaves(target) {
 			pr = append(pr, "io::Println("+l+");")
 		}
 	}
@@ -529,6 +535,9 @@ func (g *group) render(sel []int, control, prints bool) (string, [][2]int) {
 	case "ref_param":
 		params, args = "x: "+refTy(t, control), refOf("c", control)
 		mainPre = append(mainPre, fmt.Sprintf("let c: %s = %s;", t.src(), t.init()))
+	case "ref_param_holder":
+		params, args = "x: "+refOf("", control)+"H_"+t.id(), refOf("hh", control)
+		mainPre = append(mainPre, fmt.Sprintf("let c: %s = %s;", t.src(), t.init()), fmt.Sprintf("let hh: H_%s = { .R = &'c };", t.id()))
 	case "ref_param_second":
 		params, args = "n: i32, x: "+refTy(t, control), "0, "+refOf("c", control)
 		mainPre = append(mainPre, fmt.Sprintf("let c: %s = %s;", t.src(), t.init()))
@@ -660,6 +669,9 @@ func enumerate(quick bool) []*group {
 						}
 						if (m.id == "cast_mut" || m.id == "field_mut" || m.id == "elem_mut") && !(k.ref && p.root) {
 							continue // only where the place itself is a reference binding (the twin's is &'T)
+						}
+						if k.id == "ref_param_holder" && p.root {
+							continue // `x.R = v` could also mean re-seating the field: the paths below R are unambiguous
 						}
 						if strings.HasPrefix(k.id, "ref_local") && p.root && m.id == "borrow_mut" && c.enc != "cap" {
 							// not typed: `let x: &'T = &'c; let m: &'T = x;` is a second mutable borrow of c
